@@ -9,6 +9,7 @@ import (
 	"fmt"
 	"os"
 	"sync/atomic"
+	"time"
 	"unsafe"
 )
 
@@ -329,4 +330,12 @@ func vfAtomicCompareAndSwapUint64(f string, l int, p *uint64, o, n uint64) bool 
 
 func vfStallHook(region []byte, cut int, f func()) { vfHookFn, vfHookSeen = f, 0 }
 func vfStallHookOff()                              { vfHookFn = nil }
-func vfInfeasibleOK() {}
+func vfInfeasibleOK()                              {}
+
+// vfRunGoroutines: natively the goroutines the code started run by themselves; give them the time
+// the slowest one needs (the hot-restart watchers give up after 2 s)
+func vfRunGoroutines() { time.Sleep(2600 * time.Millisecond) }
+
+// vfSyncHook: like vfStallHook, counting synchronisation operations (atomics, lock acquisitions,
+// channel operations) of the code that runs after it instead of accesses to one region
+func vfSyncHook(cut int, f func()) { vfHookFn, vfHookSeen = f, 0 }
